@@ -255,15 +255,33 @@ var hostileValues = func() []interface{} {
 		strings.Repeat("\u20ac", 100), strings.Repeat("\u00e9", 300), strings.Repeat("\U0001F600", 70) + "x", "a" + strings.Repeat("\u20ac", 255)}
 }()
 
-// corruptions enumerates variants of v with each position replaced by each hostile value (or removed).
+// corruptions enumerates variants of v with each position replaced by each hostile value (or removed), each object extended by
+// optional members, and each string bent slightly. The three families have budgets of their own (one family never starves another)
+// and positions are visited in a case-determined random order (no position is starved by the ones before it).
 func corruptions(v interface{}, limit int, r *fw.Rand) [][]byte {
 	g := oracle.MustGeneric(v)
-	var out [][]byte
-	paths := gen.AllPaths(g)
+	var out, added, strs [][]byte
+	all := gen.AllPaths(g)
+	paths := make([]gen.Path, len(all))
+	for i, j := range r.Perm(len(all)) {
+		paths[i] = all[j]
+	}
+	// the whole artefact replaced by each plain hostile value (null, a scalar, an empty container)
+	for _, hv := range hostileValues[:11] {
+		if b, err := json.Marshal(hv); err == nil {
+			out = append(out, b)
+		}
+	}
+	limit += 11
+	small := len(paths) <= 12
+	addedLimit, strLimit := limit/2, limit
+	if small {
+		addedLimit, strLimit = 600, 600
+	}
 	for _, p := range paths {
 		for hi, hv := range hostileValues {
 			if len(out) >= limit {
-				return out
+				break
 			}
 			if len(paths)*len(hostileValues) > limit && r.Intn(len(paths)*len(hostileValues)) > limit {
 				continue
@@ -278,19 +296,19 @@ func corruptions(v interface{}, limit int, r *fw.Rand) [][]byte {
 			}
 			out = append(out, b)
 		}
-		if c := gen.RemoveAt(g, p); c != nil {
+		if c := gen.RemoveAt(g, p); c != nil && len(out) < limit+len(paths) {
 			if b, err := json.Marshal(c); err == nil {
 				out = append(out, b)
 			}
 		}
 		// optional members that valid samples never carry, added to every object with empty / odd values
-		if mv, ok := gen.ValueAt(g, p).(map[string]interface{}); ok && len(out) < limit {
+		if mv, ok := gen.ValueAt(g, p).(map[string]interface{}); ok && len(added) < addedLimit {
 			for _, name := range []string{"crit", "b64", "typ", "cty", "zip", "nonce", "anchorFrom", "anchorUntil", "revealValue", "anchorOrigin", "type", "purposes", "priority", "d", "kid", "alg", "use", "x5c", "jwk", "patches", "ids", "uris", "document", "", "\u00e9"} {
 				if _, exists := mv[name]; exists {
 					continue
 				}
 				vals := []interface{}{[]interface{}{}, map[string]interface{}{}, nil, "", 0, []interface{}{[]interface{}{}}, []interface{}{nil}, true, "x", -1}
-				if len(mv) > 4 || len(paths) > 12 {
+				if len(mv) > 4 || !small {
 					// large artefacts: one value per name; small ones (JWS headers, JWKs): every value
 					if r.Intn(3) != 0 {
 						continue
@@ -305,7 +323,7 @@ func corruptions(v interface{}, limit int, r *fw.Rand) [][]byte {
 					nm[name] = val
 					if c := gen.ReplaceAt(g, p, nm); c != nil {
 						if b, err := json.Marshal(c); err == nil {
-							out = append(out, b)
+							added = append(added, b)
 						}
 					}
 				}
@@ -313,19 +331,21 @@ func corruptions(v interface{}, limit int, r *fw.Rand) [][]byte {
 		}
 		// strings keep their length or nearly so: one character replaced by a line break / blank / padding sign (Go's base64 decoders
 		// skip \r and \n, so such a text decodes to fewer bytes than its length promises), one inserted, a multi-byte character
-		if sv, ok := gen.ValueAt(g, p).(string); ok && len(sv) > 0 && len(sv) < 1<<12 && len(out) < limit {
+		if sv, ok := gen.ValueAt(g, p).(string); ok && len(sv) > 0 && len(sv) < 1<<12 && len(strs) < strLimit {
 			i := r.Intn(len(sv))
 			for _, nv := range []string{sv[:i] + "\n" + sv[i+1:], sv[:i] + "\r" + sv[i+1:], sv[:i] + "\n" + sv[i:], sv[:i] + "=" + sv[i+1:], sv[:i] + " " + sv[i+1:],
-				sv + "=", sv + "\n", "\n" + sv[1:], sv[:len(sv)-1] + "\n", sv[:i] + "\u00e9" + sv[i+1:], sv[:i] + "\x00" + sv[i+1:], sv[:i] + "+/" + sv[min(i+2, len(sv)):]} {
+				sv + "=", sv + "\n", "\n" + sv[1:], sv[:len(sv)-1] + "\n", sv[:i] + "\u00e9" + sv[i+1:], sv[:i] + "\x00" + sv[i+1:], sv[:i] + "+/" + sv[min(i+2, len(sv)):],
+				// the same text in another letter case (names compared exactly in one place and case-insensitively in another)
+				strings.ToUpper(sv), strings.ToLower(sv), strings.ToUpper(sv[:1]) + strings.ToLower(sv[1:]), strings.ReplaceAll(strings.ReplaceAll(sv, "k", "\u212a"), "K", "\u212a")} {
 				if c := gen.ReplaceAt(g, p, nv); c != nil {
 					if b, err := json.Marshal(c); err == nil {
-						out = append(out, b)
+						strs = append(strs, b)
 					}
 				}
 			}
 		}
 	}
-	return out
+	return append(append(out, added...), strs...)
 }
 
 func runC19(r *fw.Runner) {
@@ -660,7 +680,7 @@ func (e *c19Env) feedSignedDelta(c *fw.Case, class string, patches []interface{}
 
 func c19Artefact(c *fw.Case, e *c19Env, kind string) (interface{}, func(b []byte)) {
 	r := c.Rng
-	h := &histCtx{r: r, proto: e.loose.P, code: uint64(18 + r.Intn(2)), keyType: fw.Pick(r, gen.SigningKeyTypes), hasIETF: true}
+	h := &histCtx{r: r, proto: e.loose.P, code: uint64(18 + r.Intn(2)), keyType: gen.SigningKeyTypes[c.Idx%len(gen.SigningKeyTypes)], hasIETF: true}
 	cs := planStep(h, 'c', "valid", 10, nil, nil)
 	feedAll := func(b []byte) { e.feedBytes(c, "corrupt-"+kind, b) }
 	switch kind {
@@ -695,7 +715,7 @@ func c19Artefact(c *fw.Case, e *c19Env, kind string) (interface{}, func(b []byte
 			e.feedBytes(c, "corrupt-jws-header-in-update", gen.ToJSON(req))
 		}
 	case "jwk":
-		k := gen.NewKey(r, fw.Pick(r, gen.AllKeyTypes))
+		k := gen.NewKey(r, gen.AllKeyTypes[c.Idx%len(gen.AllKeyTypes)]) // consecutive batches: every key type
 		j := k.JWK()
 		if r.Bool() {
 			j["d"] = oracle.B64(r.Bytes(32))
